@@ -100,7 +100,7 @@ func c14RunOnce(c *c14Case, choices []int) (*c14Result, error) {
 	results := make([][]apiRes, n)
 	commitOK := make([]int, n)
 	curStep := make([]string, n) // API call in flight per candidate
-	window := make([][2]int, n) // first/last global step index of get->write windows, for the overlap label
+	window := make([][2]int, n)  // first/last global step index of get->write windows, for the overlap label
 	for i := 0; i < n; i++ {
 		i := i
 		sh := NewShim(eng.KV, strings.Contains(c.Engine, EngMem))
